@@ -712,7 +712,13 @@ Lemma close_table_cell_ok : forall v e ks s s',
 Proof.
   intros v e ks s s' Hs H. unfold close_table_cell in H.
   bind_inv H as pr Epr. cbv zeta in H.
-  bind_inv H as rows0 Erows0. bind_inv H as dummy Edummy.
+  (* the two early returns of the repaired _close_table_cell *)
+  destruct (c_tree s) as [|tb0 root0] eqn:Eroot0; [injection H as H; subst s'; exact Hs|].
+  rewrite <- Eroot0 in H.
+  bind_inv H as rows0 Erows0.
+  destruct rows0 as [|rb0 rows1] eqn:Erows1; [injection H as H; subst s'; exact Hs|].
+  rewrite <- Erows1 in H.
+  bind_inv H as dummy Edummy.
   bind_inv H as s1 Es1. bind_inv H as span Espan.
   assert (Hs1 : st_ok s1).
   { clear H Espan.
@@ -752,7 +758,9 @@ Proof.
     split; [|split]; cbn; try assumption.
     eapply upd_row_ok; [|exact Ht|exact Eroot].
     intros cs cs' Hcs Hcs'. cbv beta in Hcs'. destruct (env_dup v).
-    + destruct cs as [|c0 r]; [discriminate Hcs'|].
+    + destruct cs as [|c0 r].
+      { injection Hcs' as Hcs'. subst cs'. constructor; [|exact Hcs].
+        apply node_ok_NL. constructor; [|constructor]. cbn. constructor. }
       injection Hcs' as Hcs'. subst cs'. inversion Hcs; subst.
       constructor; [apply copy_node_ok; assumption|exact Hcs].
     + injection Hcs' as Hcs'. subst cs'. constructor; [|exact Hcs].
